@@ -44,6 +44,8 @@ type Solver struct {
 	inScope bool
 
 	TimeoutMs int
+	OverrideMs int // one-shot cap for the next tactic query
+	tee       *os.File
 
 	// statistics
 	NSat, NUnsat, NUnknown, NErrors int
@@ -91,6 +93,21 @@ func (s *Solver) start() error {
 	s.gen++
 	s.decl = map[string]bool{}
 	s.inScope = false
+	if f := os.Getenv("VF_TEE"); f != "" {
+		s.tee, _ = os.Create(f)
+	}
+	s.sendOptions()
+	return nil
+}
+
+func (s *Solver) tacticMs() int {
+	if s.OverrideMs > 0 {
+		return s.OverrideMs
+	}
+	return s.TimeoutMs
+}
+
+func (s *Solver) sendOptions() {
 	s.send("(set-option :print-success false)")
 	s.send("(set-option :produce-models true)")
 	if s.kind == "cvc5" {
@@ -99,7 +116,6 @@ func (s *Solver) start() error {
 	} else {
 		s.send(fmt.Sprintf("(set-option :timeout %d)", s.TimeoutMs))
 	}
-	return nil
 }
 
 func (s *Solver) Close() {
@@ -121,6 +137,9 @@ func (s *Solver) restart() {
 func (s *Solver) send(cmd string) {
 	s.in.WriteString(cmd)
 	s.in.WriteByte('\n')
+	if s.tee != nil {
+		s.tee.WriteString(cmd + "\n")
+	}
 }
 
 func (s *Solver) sendLogged(cmd string) {
@@ -133,6 +152,10 @@ func (s *Solver) BeginPath() {
 	if s.inScope {
 		s.EndPath()
 	}
+	// a long-lived z3 context slows down steadily (measured: 1.6 -> 6 ms/query over 100
+	// paths); a reset per path keeps queries at their fresh-context cost
+	s.send("(reset)")
+	s.sendOptions()
 	s.send("(push 1)")
 	s.inScope = true
 	s.gen++
@@ -143,6 +166,9 @@ func (s *Solver) BeginPath() {
 }
 
 func (s *Solver) EndPath() {
+	if f := os.Getenv("VF_DUMP_PATH"); f != "" && len(s.log) > 50 {
+		os.WriteFile(f, []byte(strings.Join(s.log, "\n")+"\n"), 0644)
+	}
 	if s.inScope {
 		s.send("(pop 1)")
 		s.inScope = false
@@ -266,12 +292,32 @@ func (s *Solver) Check(extra *Term) SatResult {
 		s.send("(assert " + r + ")")
 	}
 	s.send("(check-sat)")
-	if extra != nil {
-		s.send("(pop 1)")
-	}
 	s.in.Flush()
 	res := s.readResult()
-	s.SolveTime += time.Since(t0)
+	if res == Unknown && s.kind != "cvc5" {
+		s.send(fmt.Sprintf("(check-sat-using (try-for qfufbv %d))", s.tacticMs()))
+		s.in.Flush()
+		res = s.readResult()
+	}
+	if extra != nil {
+		s.send("(pop 1)")
+		s.in.Flush()
+	}
+	el := time.Since(t0)
+	s.SolveTime += el
+	if (el > 3*time.Second || res == Unknown) && os.Getenv("VF_SLOW") != "" {
+		x := ""
+		if extra != nil {
+			x = extra.String()
+			if len(x) > 3000 {
+				x = x[:3000]
+			}
+		}
+		fmt.Fprintf(os.Stderr, "SLOW QUERY %.1fs %s: %s\n", el.Seconds(), res, x)
+		if f := os.Getenv("VF_SLOW_DUMP"); f != "" {
+			os.WriteFile(f, []byte("(set-logic ALL)\n"+strings.Join(s.log, "\n")+"\n(assert "+r+")\n(check-sat)\n"), 0644)
+		}
+	}
 	switch res {
 	case Sat:
 		s.NSat++
@@ -350,7 +396,12 @@ func (s *Solver) CheckModel(extra *Term, vars map[string]uint8) (SatResult, *Ass
 		s.send("(push 1)")
 		s.send("(assert " + r + ")")
 	}
-	s.send("(check-sat)")
+	if s.kind == "cvc5" {
+		s.send("(check-sat)")
+	} else {
+		// the tactic pipeline is far faster than z3's incremental core on assertion obligations
+		s.send(fmt.Sprintf("(check-sat-using (try-for qfufbv %d))", s.tacticMs()))
+	}
 	s.in.Flush()
 	res := s.readResult()
 	var as *Assignment
@@ -361,7 +412,21 @@ func (s *Solver) CheckModel(extra *Term, vars map[string]uint8) (SatResult, *Ass
 		s.send("(pop 1)")
 		s.in.Flush()
 	}
-	s.SolveTime += time.Since(t0)
+	el := time.Since(t0)
+	s.SolveTime += el
+	if (el > 3*time.Second || res == Unknown) && os.Getenv("VF_SLOW") != "" {
+		x := ""
+		if extra != nil {
+			x = extra.String()
+			if len(x) > 3000 {
+				x = x[:3000]
+			}
+		}
+		fmt.Fprintf(os.Stderr, "SLOW MODEL QUERY %.1fs %s: %s\n", el.Seconds(), res, x)
+		if f := os.Getenv("VF_SLOW_DUMP"); f != "" {
+			os.WriteFile(f, []byte("(set-logic ALL)\n"+strings.Join(s.log, "\n")+"\n(assert "+r+")\n(check-sat)\n"), 0644)
+		}
+	}
 	switch res {
 	case Sat:
 		s.NSat++
@@ -627,4 +692,50 @@ func (s *Solver) Portfolio(extra *Term, capSec int) SatResult {
 		s.PortfolioDecided++
 	}
 	return res
+}
+
+// CheckModelFast is Check plus model extraction on Sat, using the incremental core.
+func (s *Solver) CheckModelFast(extra *Term, vars map[string]uint8) (SatResult, *Assignment) {
+	var r string
+	if extra != nil {
+		if extra.op == OpConst {
+			if extra.val == 0 {
+				return Unsat, nil
+			}
+			extra = nil
+		} else {
+			r = s.ref(extra)
+		}
+	}
+	t0 := time.Now()
+	if extra != nil {
+		s.send("(push 1)")
+		s.send("(assert " + r + ")")
+	}
+	s.send("(check-sat)")
+	s.in.Flush()
+	res := s.readResult()
+	if res == Unknown && s.kind != "cvc5" {
+		s.send(fmt.Sprintf("(check-sat-using (try-for qfufbv %d))", s.tacticMs()))
+		s.in.Flush()
+		res = s.readResult()
+	}
+	var as *Assignment
+	if res == Sat {
+		as = s.getModel(vars)
+	}
+	if extra != nil {
+		s.send("(pop 1)")
+		s.in.Flush()
+	}
+	s.SolveTime += time.Since(t0)
+	switch res {
+	case Sat:
+		s.NSat++
+	case Unsat:
+		s.NUnsat++
+	default:
+		s.NUnknown++
+	}
+	return res, as
 }
